@@ -656,6 +656,23 @@ func (e Event) Selected() []Input {
 	return res
 }
 
+// Returns the index into a log's Topics for the indexed
+// input named name. Topics[0] is the signature hash so the
+// first indexed input is at 1.
+func (e Event) topicIndex(name string) int {
+	var n int
+	for _, inp := range e.Inputs {
+		if !inp.Indexed {
+			continue
+		}
+		n++
+		if inp.Name == name {
+			return n
+		}
+	}
+	return 0
+}
+
 func (e Event) numIndexed() int {
 	var res int
 	for _, inp := range e.Inputs {
@@ -675,6 +692,11 @@ type coldef struct {
 	BlockData BlockData
 	Column    wpg.Column
 	Notify    bool
+
+	// for indexed inputs: the index of the input's topic in
+	// the log's Topics (1 is the first indexed input of the event
+	// regardless of which inputs are selected)
+	Topic int
 }
 
 // Implements the [shovel.Integration] interface
@@ -751,11 +773,15 @@ func (ig *Integration) setCols() {
 	for _, input := range ig.Event.Selected() {
 		c := getCol(input.Column)
 		ig.Columns = append(ig.Columns, c.Name)
-		ig.coldefs = append(ig.coldefs, coldef{
+		def := coldef{
 			Input:  input,
 			Column: c,
 			Notify: slices.Contains(ig.Notification.Columns, c.Name),
-		})
+		}
+		if input.Indexed {
+			def.Topic = ig.Event.topicIndex(input.Name)
+		}
+		ig.coldefs = append(ig.coldefs, def)
 		ig.numSelected++
 	}
 	for _, bd := range ig.Block {
@@ -1050,18 +1076,17 @@ func (ig Integration) processLog(rows [][]any, lwc *logWithCtx, pgmut *sync.Mute
 			return nil, fmt.Errorf("scanning abi data: %w", err)
 		}
 		for i := 0; i < ig.resultCache.Len(); i++ {
-			ictr, actr := 1, 0
+			actr := 0
 			frs := filterResults{kind: ig.filterAGG}
 			row := make([]any, len(ig.coldefs))
 			for j, def := range ig.coldefs {
 				switch {
 				case def.Input.Indexed:
-					d := dbtype(def.Input.Type, lwc.l.Topics[ictr])
+					d := dbtype(def.Input.Type, lwc.l.Topics[def.Topic])
 					if err := def.Input.Accept(lwc.ctx, pgmut, pg, d, &frs); err != nil {
 						return nil, fmt.Errorf("checking filter: %w", err)
 					}
 					row[j] = d
-					ictr++
 				case !def.BlockData.Empty():
 					var d any
 					switch {
@@ -1093,7 +1118,7 @@ func (ig Integration) processLog(rows [][]any, lwc *logWithCtx, pgmut *sync.Mute
 		for i, def := range ig.coldefs {
 			switch {
 			case def.Input.Indexed:
-				d := dbtype(def.Input.Type, lwc.l.Topics[1+i])
+				d := dbtype(def.Input.Type, lwc.l.Topics[def.Topic])
 				if err := def.Input.Accept(lwc.ctx, pgmut, pg, d, &frs); err != nil {
 					return nil, fmt.Errorf("checking filter: %w", err)
 				}
